@@ -13,6 +13,7 @@ import collections
 import os
 import random
 import re
+import shutil
 import subprocess
 import sys
 
@@ -321,6 +322,8 @@ def run(pid, tier, seed, replay=None):
     rep = vlib.Report(pid, tier, seed)
     exe, proj = build("plain")
     with vlib.Scratch("verif-" + pid) as sc:
+        # private copy: the shared build cache is pruned by concurrent checks
+        exe = shutil.copy2(exe, sc.path("bin", "ivh_pump"))
         mc = model_check(tier, sc, rep)
         exhaustive = False
         if replay:
